@@ -106,6 +106,9 @@ type fakeClient struct {
 	// closeNotFound: CloseStream of a vBucket without a live stream is answered "no such stream", as a node does
 	closeNotFound bool
 	seqGate       func(aware bool) // called at the start of every sequence-number query, outside the lock
+	endAsync      time.Duration    // endOnClose: the end notification is delivered this long after CloseStream returned
+	closeAt       []vbTime         // when each CloseStream call began
+	endAt         []vbTime         // when each asynchronous end notification was handed to the observer
 	closing       map[uint16]bool  // vBuckets for which a close request has arrived (reset by a successful OpenStream)
 }
 
@@ -227,6 +230,7 @@ func (f *fakeClient) CloseStream(vb uint16) error {
 	defer f.inflight.Add(-1)
 	f.mu.Lock()
 	f.closes = append(f.closes, vb)
+	f.closeAt = append(f.closeAt, vbTime{vb, time.Now()})
 	wasLive := f.live[vb]
 	delete(f.live, vb)
 	if f.closing == nil {
@@ -243,6 +247,19 @@ func (f *fakeClient) CloseStream(vb uint16) error {
 	f.mu.Unlock()
 	if onClose != nil {
 		onClose(vb)
+	}
+	if end && o != nil && wasLive && f.endAsync > 0 {
+		// the end notification reaches the observer on the connection's goroutine a little after the close was
+		// acknowledged (as gocbcore delivers it), not from inside the CloseStream call
+		d := f.endAsync
+		go func() {
+			time.Sleep(d)
+			f.mu.Lock()
+			f.endAt = append(f.endAt, vbTime{vb, time.Now()})
+			f.mu.Unlock()
+			o.End(models.DcpStreamEnd{VbID: vb}, gocbcore.ErrDCPStreamClosed)
+		}()
+		return nil
 	}
 	if end && o != nil && wasLive {
 		o.End(models.DcpStreamEnd{VbID: vb}, gocbcore.ErrDCPStreamClosed)
@@ -267,6 +284,11 @@ func (f *fakeClient) Ping() (*models.PingResult, error) {
 		}
 	}
 	return &models.PingResult{MemdEndpoint: "m", MgmtEndpoint: "g"}, nil
+}
+
+type vbTime struct {
+	vb uint16
+	t  time.Time
 }
 
 // partialPingError marks a scripted ping failure that comes with a non-nil result.
